@@ -250,6 +250,7 @@ Qed.
 Lemma api_submit_ok s a cid buf flags : R s a -> cid < length a ->
   exists s' r rc, api_submit A K sched s cid buf flags = (s', Ret r, rc) /\
     R s' (abs_step a (CSubmit cid buf flags) r) /\
+    (forall ob, obs_of A s' (Ret r) rc = Some ob -> step_struct a (CSubmit cid buf flags) ob) /\
     (smalls a -> smalls (abs_step a (CSubmit cid buf flags) r) ->
      exists o, obs_of A s' (Ret r) rc = Some o /\
                spec_check A K a (CSubmit cid buf flags) o = Some (abs_step a (CSubmit cid buf flags) r)).
@@ -265,8 +266,11 @@ Proof.
     assert (Eg : getc A (setc s cid (set_error (getc A s cid) e)) cid = set_error (getc A s cid) e).
     { unfold getc at 1, setc. cbn [ctxs]. apply nth_upd_eq. rewrite L. exact Hc. }
     eexists. eexists. eexists. split; [reflexivity|]. rewrite Nat.eqb_refl, Eg. cbn [set_error c_error].
-    split.
+    split; [|split].
     + split; [|exact HK]. unfold setc. cbn [ctxs held]. apply RI_set_error. exact RI1.
+    + intros ob Eo. cbn [obs_of] in Eo. rewrite Eg in Eo. injection Eo as <-.
+      unfold step_struct. split; [exact Hc|]. rewrite Rej.
+      cbn [o_rc o_ret o_error set_error c_error]. repeat split; reflexivity.
     + intros Hsm _. eexists. split; [reflexivity|]. rewrite Eg.
       unfold spec_check. rewrite Hcl. cbn [negb]. rewrite Rej.
       cbn [o_ret o_error o_rc o_status o_digest set_error c_status c_error c_digest].
@@ -314,12 +318,26 @@ Proof.
                          | _ => 0%N
                          end)) = (s', Ret r, rc) /\
                 R s' (retire a1 r) /\
+                (forall ob, obs_of A s' (Ret r) rc = Some ob -> step_struct a (CSubmit cid buf flags) ob) /\
                 (smalls a -> smalls (retire a1 r) ->
                  exists o, obs_of A s' (Ret r) rc = Some o /\
                    spec_check A K a (CSubmit cid buf flags) o = Some (retire a1 r))).
     { intros s2 r2 fuel R2 K2 F2 E2.
       destruct (resubmit_ok fuel s2 a1 r2 R2 K2 F2) as (s' & r & E & R' & K' & RO & _ & Er).
       rewrite E. eexists. eexists. eexists. split; [reflexivity|]. split; [split; assumption|].
+      split.
+      { intros ob Eo. unfold step_struct. split; [exact Hc|]. rewrite Rej. fold sg'. fold a1.
+        destruct r as [r|].
+        - assert (Erc : (if r =? cid then map_error (c_error (getc A s' r)) else 0%N) = 0%N).
+          { destruct (r =? cid) eqn:Eq; [|reflexivity]. apply Nat.eqb_eq in Eq. subst r.
+            rewrite Er, E2. reflexivity. }
+          rewrite Erc in Eo. cbn [obs_of] in Eo. injection Eo as <-.
+          cbn [o_rc o_ret o_error]. split; [reflexivity|]. split.
+          + intros r' Hr'. injection Hr' as <-. destruct RO as (_ & l & Ph & Hs & Ht & _).
+            exists l. cbn [o_status o_total]. auto.
+          + intros Hr'. injection Hr' as ->. rewrite Er, E2. reflexivity.
+        - cbn [obs_of] in Eo. injection Eo as <-. cbn [o_rc o_ret o_error].
+          split; [reflexivity|]. split; [intros r' [=]|intros [=]]. }
       intros Hsm Hsm'.
       assert (NF : n_flight (retire a1 r) = length (held s')).
       { apply (R_n_flight s'). split; assumption. }
@@ -414,17 +432,24 @@ Lemma step_ok s a o : R s a -> op_ok (length a) o ->
   exists s' r rc ob, step A K sched s o = (s', Ret r, rc) /\
     obs_of A s' (Ret r) rc = Some ob /\ o_ret ob = r /\ o_rc ob = rc /\
     R s' (abs_step a (call_of o) r) /\
+    step_struct a (call_of o) ob /\
     (smalls a -> smalls (abs_step a (call_of o) r) ->
      spec_check A K a (call_of o) ob = Some (abs_step a (call_of o) r)).
 Proof.
   intros HR Hop. destruct o as [cid buf flags|]; cbn [step call_of].
-  - destruct (api_submit_ok s a cid buf flags HR Hop) as (s' & r & rc & E & R' & SP).
+  - destruct (api_submit_ok s a cid buf flags HR Hop) as (s' & r & rc & E & R' & SS & SP).
     destruct (obs_of_Ret s' r rc) as (ob & Eo & Or & Oc).
     exists s', r, rc, ob. repeat (split; [first [reflexivity|assumption]|]).
+    split; [apply SS; exact Eo|].
     intros H1 H2. destruct (SP H1 H2) as (o & Eo' & SC). rewrite Eo in Eo'. injection Eo' as ->. exact SC.
   - destruct (ctx_flush_ok s a HR) as (s' & r & E & R' & RO & N0). rewrite E.
     destruct (obs_of_Ret s' r 0%N) as (ob & Eo & Or & Oc).
     exists s', r, 0%N, ob. repeat (split; [first [reflexivity|assumption]|]). cbn [abs_step].
+    split.
+    { cbn [step_struct]. split; [exact Oc|]. split.
+      - intros r' Hr'. rewrite Or in Hr'. rewrite Hr' in *. unfold obs_of in Eo. injection Eo as <-.
+        destruct RO as (_ & l & Ph & Hs & Ht & _). exists l. cbn [o_status o_total]. auto.
+      - intros Hn. rewrite Or in Hn. apply N0. exact Hn. }
     intros H1 H2. unfold spec_check. rewrite Oc. cbn [N.eqb negb]. rewrite Or.
     destruct r as [r|].
     + assert (Hr : r < length a) by (destruct RO; assumption).
@@ -442,16 +467,21 @@ Fixpoint bounded (a : list actx) (tr : list (call * obs)) : Prop :=
 
 Lemma run_ok : forall ops s a, R s a -> Forall (op_ok (length a)) ops ->
   exists tr, run_obs A K sched s ops = Some tr /\ map fst tr = map call_of ops /\
+    trace_struct a tr /\ R (fst (run A K sched s ops)) (abs_run a tr) /\
     (smalls a -> bounded a tr -> accepts A K a tr = true).
 Proof.
   induction ops as [|o ops IH]; intros s a HR Hops.
-  - exists []. repeat split.
+  - exists []. split; [reflexivity|]. split; [reflexivity|]. split; [exact I|]. split; [exact HR|].
+    reflexivity.
   - inversion Hops as [|? ? Ho Hops']; subst.
-    destruct (step_ok s a o HR Ho) as (s' & r & rc & ob & E & Eo & Or & Oc & R' & SC).
-    destruct (IH s' (abs_step a (call_of o) r) R') as (tr & Et & Em & Acc).
+    destruct (step_ok s a o HR Ho) as (s' & r & rc & ob & E & Eo & Or & Oc & R' & SS & SC).
+    destruct (IH s' (abs_step a (call_of o) r) R') as (tr & Et & Em & TS & RF & Acc).
     { rewrite length_abs_step. exact Hops'. }
     exists ((call_of o, ob) :: tr). cbn [run_obs]. unfold step_obs. rewrite E, Eo, Et.
     split; [reflexivity|]. split; [cbn [map fst]; rewrite Em; reflexivity|].
+    split; [cbn [trace_struct]; rewrite Or; split; assumption|].
+    split.
+    { cbn [run abs_run]. rewrite E, Or. destruct (run A K sched s' ops) as [s2 outs]. exact RF. }
     intros Hsm [Hb1 Hb2]. rewrite Or in *. cbn [accepts]. rewrite (SC Hsm Hb1). apply Acc; assumption.
 Qed.
 
@@ -483,12 +513,16 @@ Theorem hash_refines_run junk ops :
   1 <= K -> Forall ctx_typed junk -> Forall (op_ok (length junk)) ops ->
   exists tr, run_obs A K sched (model_init A junk) ops = Some tr /\
     map fst tr = map call_of ops /\
+    trace_struct (spec_init (length junk)) tr /\
+    R (fst (run A K sched (model_init A junk) ops)) (abs_run (spec_init (length junk)) tr) /\
     (bounded (spec_init (length junk)) tr -> accepts A K (spec_init (length junk)) tr = true).
 Proof.
   intros HK Hty Hops.
-  destruct (run_ok ops (model_init A junk) (spec_init (length junk)) (init_R junk HK Hty)) as (tr & E & Em & Acc).
+  destruct (run_ok ops (model_init A junk) (spec_init (length junk)) (init_R junk HK Hty))
+    as (tr & E & Em & TS & RF & Acc).
   { unfold spec_init. rewrite repeat_length. exact Hops. }
-  exists tr. split; [exact E|]. split; [exact Em|]. intros Hb. apply Acc; [apply init_smalls|exact Hb].
+  exists tr. split; [exact E|]. split; [exact Em|]. split; [exact TS|]. split; [exact RF|].
+  intros Hb. apply Acc; [apply init_smalls|exact Hb].
 Qed.
 
 End Refine.
